@@ -19,7 +19,7 @@ pub static PROP: PropDef = PropDef {
            non-trivial = workload with >= 1 dynamic-table reference on the wire and (an eviction or a decode attempted while blocked); distinct by (workload, schedule)",
     assumptions: &["reference dynamic-table decoder in src/reference/qpack_dyn.rs (self-tested against RFC 9204 Appendix B)", "the stateful encoder/decoder are reached through the cfg-guarded re-export; they are not used on live connections today"],
     tape_len: 400,
-    random_cases: |t| t.pick(150_000, 6_000_000),
+    random_cases: |t| t.pick(600_000, 12_000_000),
     run_tape,
     exhaustive: None,
     run_direct: None,
